@@ -67,6 +67,9 @@ type Input struct {
 	Universes []Universe `json:"universes"`
 	Cases     []Case     `json:"cases"`
 	Seed      int64      `json:"seed"`
+	Defaults  []string   `json:"defaults"` // default: both
+	Protos    []string   `json:"protos"`   // default: both
+	Full      bool       `json:"full"`     // all near-misses also for universes without special runes
 }
 
 const (
@@ -258,6 +261,16 @@ func callersFor(mentioned []string, peers []string, isHTTP bool, full bool) []ca
 	}
 	for _, n := range mentioned {
 		nm := nearMisses(n)
+		if !full && len(nm) > 6 {
+			// universes without special runes: a fixed sample (first, last and every fourth)
+			var pick []string
+			for k, m := range nm {
+				if k == 0 || k == len(nm)-1 || k%4 == 1 {
+					pick = append(pick, m)
+				}
+			}
+			nm = pick
+		}
 		for k, m := range nm {
 			cls := "nearmiss"
 			if seen[m] {
@@ -404,7 +417,7 @@ func (em *emitter) runCase(r *rand.Rand, uid string, meta bool, dst string, ixns
 	mentioned := map[string]bool{}
 	peers := map[string]bool{"p": true}
 	hasL7 := false
-	pathSet := map[string]bool{"/a": true, "/ab": true, "/a/x": true, "/b": true}
+	pathSet := map[string]bool{"/a": true, "/ab": true, "/b": true}
 	for _, i := range ixns {
 		if i.Src != "*" {
 			mentioned[i.Src] = true
@@ -529,12 +542,18 @@ func concretize(c Case, u Universe) (string, []Ixn) {
 
 func replay(in Input, em *emitter) {
 	r := rand.New(rand.NewSource(in.Seed))
+	if len(in.Defaults) == 0 {
+		in.Defaults = []string{"deny", "allow"}
+	}
+	if len(in.Protos) == 0 {
+		in.Protos = []string{"tcp", "http"}
+	}
 	for _, c := range in.Cases {
 		for _, u := range in.Universes {
 			dst, ixns := concretize(c, u)
-			for _, def := range []string{"deny", "allow"} {
-				for _, proto := range []string{"tcp", "http"} {
-					em.runCase(r, u.ID, u.Meta, dst, ixns, def, proto, false)
+			for _, def := range in.Defaults {
+				for _, proto := range in.Protos {
+					em.runCase(r, u.ID, u.Meta, dst, ixns, def, proto, in.Full || u.Meta)
 				}
 			}
 		}
@@ -609,7 +628,7 @@ func random(seed int64, n int, em *emitter) {
 		}
 		def := []string{"deny", "allow"}[r.Intn(2)]
 		proto := []string{"tcp", "http"}[r.Intn(2)]
-		em.runCase(r, pool.id, pool.meta, dst, ixns, def, proto, true)
+		em.runCase(r, pool.id, pool.meta, dst, ixns, def, proto, pool.meta || k%4 == 0)
 	}
 }
 
